@@ -22,9 +22,12 @@ let ver_rel (v : z) = let v = iz v in if v = 0 then "0" else "v" ^ string_of_int
 let ver_abs (s : string) : z = if s = "0" then zi 0 else zi (int_of_string (String.sub s 1 (String.length s - 1)) + !now0 * 1000000000)
 let init_seq = iz list_initial_seq
 let sub_s = function SB b -> "b" ^ hexb b | SI i -> "i" ^ string_of_int (iz i - init_seq)
+  | SS (sc, m) -> "s" ^ string_of_int (iz sc) ^ ":" ^ hexb m
 let sub_p (s : string) : skey =
   let r = String.sub s 1 (String.length s - 1) in
-  if s.[0] = 'b' then SB (bytes_of_hex r) else SI (zi (int_of_string r + init_seq))
+  if s.[0] = 'b' then SB (bytes_of_hex r)
+  else if s.[0] = 's' then (match split_on ':' r with [sc; m] -> SS (zi (int_of_string sc), bytes_of_hex m) | _ -> failwith ("sub " ^ s))
+  else SI (zi (int_of_string r + init_seq))
 let val_s = function EB b -> "b" ^ hexb b | EI i -> "i" ^ string_of_int (iz i)
 
 let dec_z (z : z) : string = str_of_bytes (format_int z)
